@@ -510,6 +510,9 @@ func intDigits(s string) (string, bool) {
 	if strings.ContainsAny(s, ".eE") {
 		return "", false
 	}
+	if s == "-0" {
+		s = "0" // proto.Equal does not distinguish the sign of a zero either
+	}
 	return s, true
 }
 
